@@ -343,6 +343,7 @@ SendRx(sm, qm, sym, org) ==
      ELSE LET q == [sm EXCEPT !.crc0 = sm.crc, !.crc = CrcF(sm.crc, sym)] IN
           IF sym = ESC THEN [q EXCEPT !.esc = TRUE] ELSE SendRespValue(q, sym)
   ELSE IF sm.ph \in {"m", "rq", "sack"} THEN SendEnd(sm)   \* somebody else talks while it is ebusd's turn
+  ELSE IF sm.ph = "syn" THEN [sm EXCEPT !.ph = "synsent"]  \* the bus is already used by somebody else: the closing SYN is moot
   ELSE sm
 
 SendNtf(sm, qm, r, res, slave, restart) ==
